@@ -115,9 +115,9 @@ fn gen_intervals(r: &mut Rng) -> String {
 
 pub fn gen_cases(r: &mut Rng, n: usize) -> Vec<Case> {
     let mut v = vec![];
-    let fs = ["x", "x^2 + 1", "x**3 - x", "sin(x) + 2", "exp(x/2)", "2 - x", "cos(2*x) + 3", "x*x*x/4 + x", "ln(x*x + 1) + 1", "1/(1 + x*x) + 1"];
-    let cs = ["0", "-y", "y/2 + 5", "0.3*y^2 + 1", "sin(y) + 7", "2*y - 3", "-0.25*y**3", "exp(-y) + 2", "pi"];
-    let gs = ["x", "x**3", "2*x + sin(x)", "x^2", "x**3 - 3*x", "exp(x)", "-x", "x + cos(x)/2", "x*x*x + x"];
+    let fs = ["x", "x**2 + 1", "x**3 - x", "sin(x) + 2", "exp(x/2)", "2 - x", "cos(2*x) + 3", "x*x*x/4 + x", "ln(x*x + 1) + 1", "1/(1 + x*x) + 1"];
+    let cs = ["0", "-y", "y/2 + 5", "0.3*y**2 + 1", "sin(y)/2 + 7", "2*y - 3", "-0.25*y**3", "exp(-y) + 2", "pi"];
+    let gs = ["x", "x**3", "2*x + sin(x)", "x**2", "x**3 - 3*x", "exp(x)", "-x", "x + cos(x)/2", "x*x*x + x"];
     for i in 0..n {
         let rs = i % 3 == 2;
         if i % 4 == 0 {
@@ -150,7 +150,7 @@ pub fn gen_root_cases(r: &mut Rng, n: usize) -> Vec<Case> {
         let mut gp = vec![if r.chance(0.5) { 1.0 } else { -1.0 } * r.uniform(0.5, 2.0)];
         for rt in &roots { gp = pmul(&gp, &[-rt, 1.0]); }
         // optional off-grid even-order zero (saddle): must not create a boundary
-        let saddle = if r.chance(0.35) { let s = a + h * (1.5 + r.below((xr - 3) as u64) as f64) + h * 0.25; if roots.iter().all(|q| (q - s).abs() > 2.0 * h) { gp = pmul(&gp, &pmul(&[-s, 1.0], &[-s, 1.0])); Some(s) } else { None } } else { None };
+        let saddle = if r.chance(0.45) { let s = a + h * (1.5 + r.below((xr - 3) as u64) as f64) + if std::env::var("CAVH_ONGRID").is_ok() { h * 0.5 } else { h * 0.25 }; /* off the grid: saddles on (or within ~1e-8 of) a grid point are the known finding C11/on-grid-saddle */ if roots.iter().all(|q| (q - s).abs() > 2.0 * h) { gp = pmul(&gp, &pmul(&[-s, 1.0], &[-s, 1.0])); Some(s) } else { None } } else { None };
         let has_saddle = saddle.is_some();
         // c'(y) = 1 - g'(y)  (f = x)
         let cprime = padd(&[1.0], &pscale(&gp, -1.0));
@@ -158,8 +158,14 @@ pub fn gen_root_cases(r: &mut Rng, n: usize) -> Vec<Case> {
         cp[0] = r.dyadic(-2.0, 2.0, 2);
         let rev = r.chance(0.4);
         let iv = if rev { format!("[{:?}, {:?}]", b, a) } else { format!("[{:?}, {:?}]", a, b) };
-        let tol = 10f64.powi(r.range(-12, -6) as i32);
-        v.push(Case { rs: false, f: "x".into(), c: ptext(&cp, "y"), iv, cfg: Cfg { ci: false, xr, yr: 2, ic: 1, mrf: 200, mi: 100, tol }, kind: "roots", poly: None,
+        let mut tol = 10f64.powi(r.range(-12, -6) as i32);
+        // an even-order zero is only decidable by sampling g' at s +- tol when g' there is above the
+        // rounding resolution of g' (~1e-16 x size of the terms of c'); keep the saddle cases resolvable
+        if let Some(sd) = saddle {
+            let noise = 1e-16 * cprime.iter().enumerate().map(|(i, c)| c.abs() * 2f64.powi(i as i32)).sum::<f64>();
+            while tol < 1e-4 && peval(&gp, sd + tol).abs().min(peval(&gp, sd - tol).abs()) < 1e4 * noise { tol *= 10.0; }
+        }
+        v.push(Case { rs: false, f: "x".into(), c: ptext(&cp, "y"), iv, cfg: Cfg { ci: false, xr, yr: 2, ic: 1, mrf: 200, mi: 100, tol }, kind: "roots", poly: Some((gp.clone(), cprime.clone())),
             roots: Some(if rev { roots.iter().rev().copied().collect() } else { roots }), saddle: has_saddle, rs_tp: None });
     }
     v
@@ -248,7 +254,7 @@ fn judge(c: &Case, ds: &[CavDisplay2D], rep: &mut Report) {
         if c.cfg.ci {
             let mut total = 0.0; let mut errsum = 0.0;
             for p in pieces { match p.integ_value { Some((v, e)) => { total += v; errsum += e; } None => rep.finding("oracle", &["C07"], "integ-missing", input.clone(), String::new()) } }
-            if let Some((fp, cp)) = &c.poly {
+            if let (Some((fp, cp)), true) = (&c.poly, c.kind != "roots") {
                 // integrand f * g' with g = x - c(f(x)) (cav) or g = c (rs): exact polynomial antiderivative
                 let gprime = if c.rs { pderiv(cp) } else { padd(&[1.0], &pscale(&pmul(&pcomp(&pderiv(cp), fp), &pderiv(fp)), -1.0)) };
                 let anti = pint(&pmul(fp, &gprime));
@@ -333,7 +339,11 @@ fn judge(c: &Case, ds: &[CavDisplay2D], rep: &mut Report) {
             if pieces.len() != roots.len() + 1 { rep.finding("oracle", &["C11"], "wrong-number-of-pieces", input.clone(), format!("{} pieces for {} sign changes {:?}; boundaries {:?}", pieces.len(), roots.len(), roots, pieces.iter().map(|p| p.b).collect::<Vec<_>>())); }
             else {
                 for (p, rt) in pieces.iter().zip(roots.iter()) {
-                    if (p.b - rt).abs() > c.cfg.tol + 4.0 * f64::EPSILON * rt.abs() { rep.finding("oracle", &["C11"], "boundary-not-within-tol", input.clone(), format!("boundary {:e} root {:e} tol {:e}", p.b, rt, c.cfg.tol)); }
+                    // rounding of g' (size of the terms of c') over the slope of g' at the root
+                    let cond = match &c.poly { Some((gp, cpr)) if c.kind == "roots" => {
+                        let noise = 64.0 * f64::EPSILON * cpr.iter().enumerate().map(|(i, q)| q.abs() * rt.abs().powi(i as i32)).sum::<f64>();
+                        noise / peval(&pderiv(gp), *rt).abs().max(1e-300) } _ => 0.0 };
+                    if (p.b - rt).abs() > c.cfg.tol + 4.0 * f64::EPSILON * rt.abs() + cond { rep.finding("oracle", &["C11"], "boundary-not-within-tol", input.clone(), format!("boundary {:e} root {:e} tol {:e}", p.b, rt, c.cfg.tol)); }
                 }
                 for p in pieces.iter().filter(|_| !c.saddle) {
                     let inner = &p.dgv[1..p.dgv.len() - 1];
@@ -386,8 +396,19 @@ pub fn run(o: &Opts) -> Report {
     // corpus
     cases.push(Case { rs: false, f: "x^2".into(), c: "-y".into(), iv: "[0, 1]".into(), cfg: Cfg { ci: true, xr: 50, yr: 50, ic: 1, mrf: 100, mi: 100, tol: 1e-9 }, kind: "corpus", poly: None, roots: None, saddle: false, rs_tp: None });
     cases.push(Case { rs: true, f: "x".into(), c: "x**3".into(), iv: "[-1, 1]".into(), cfg: Cfg { ci: true, xr: 50, yr: 50, ic: 1, mrf: 100, mi: 100, tol: 1e-9 }, kind: "corpus", poly: None, roots: None, saddle: false, rs_tp: None });
-    cases.push(Case { rs: false, f: "x".into(), c: ptext(&[0.0, 1.0, 0.0, -0.1, 0.25], "y"), iv: "[-3, 3]".into(), cfg: Cfg { ci: false, xr: 6, yr: 2, ic: 1, mrf: 100, mi: 100, tol: 1e-9 }, kind: "corpus", poly: None, roots: None, saddle: false, rs_tp: None });
+    // DESIGN E13: g' = x^2 (0.3 - x): a monotone saddle exactly on the grid point 0, next to the sign change at 0.3
+    cases.push(Case { rs: false, f: "x".into(), c: ptext(&[0.0, 1.0, 0.0, -0.1, 0.25], "y"), iv: "[-3, 3]".into(), cfg: Cfg { ci: false, xr: 6, yr: 2, ic: 1, mrf: 100, mi: 100, tol: 1e-9 }, kind: "corpus", poly: None, roots: Some(vec![0.3]), saddle: true, rs_tp: None });
     cases.extend(api_any_cases(&mut r, if o.thorough { 4000 } else { 700 }));
+    // known finding C11/on-grid-saddle: an even-order zero of g' on a grid point whose neighbourhood is below
+    // the rounding resolution of g' (fixed inputs, listed in known_findings.jsonl)
+    cases.push(Case { rs: false, f: "x".into(), c: ptext(&pint(&padd(&[1.0], &pscale(&pmul(&pmul(&[-0.5, 1.0], &[-0.5, 1.0]), &[1.25, 1.0]), -1.0))), "y"), iv: "[-2, 2]".into(),
+        cfg: Cfg { ci: false, xr: 8, yr: 2, ic: 1, mrf: 200, mi: 100, tol: 1e-9 }, kind: "corpus", poly: None, roots: Some(vec![-1.25]), saddle: true, rs_tp: None });
+    // KNOWN FINDING (see known_findings.jsonl): g' = K (x - 1.5)^2 with the double zero on a grid point; the sampled
+    // derivative there is rounding noise of either sign, so a boundary is reported although g' never changes sign
+    cases.push(Case { rs: false, f: "x".into(), c: "-2.0 + 3.3463508213860687*y - 1.564233880924046*y**2 + 0.3476075290942324*y**3".into(), iv: "[2.0, -2.0]".into(),
+        cfg: Cfg { ci: false, xr: 16, yr: 2, ic: 1, mrf: 200, mi: 100, tol: 9.999999999999999e-6 }, kind: "corpus", poly: None, roots: Some(vec![]), saddle: true, rs_tp: None });
+    cases.push(Case { rs: false, f: "x*x*x/4 + x".into(), c: "sin(y) + 7".into(), iv: "[-0.375, 1.125]".into(),
+        cfg: Cfg { ci: false, xr: 4, yr: 50, ic: 1, mrf: 100, mi: 150, tol: 1e-8 }, kind: "corpus", poly: None, roots: None, saddle: false, rs_tp: None });
     let mut reqs = vec![]; let mut impls = vec![];
     let mut outs: Vec<Option<Vec<CavDisplay2D>>> = vec![];
     let mut seen = std::collections::HashSet::new();
